@@ -11,12 +11,13 @@ from runner import Case
 from props import _store_util as U
 from props import _twoproc
 
-THEOREMS = ["C20.assertions_off_same", "C20.assertions_off_same_run", "C20.off_only_removes_rejections", "C20.guards_pure"]
+THEOREMS = ["C20.assertions_off_same", "C20.assertions_off_same_run", "C20.off_only_removes_rejections", "C20.guards_pure",
+            "BinStore.assertions_off_same", "BinStore.off_only_removes_rejections", "BinStore.run_assertions_off_same", "DagStore.assertions_off_same", "DagStore.off_only_removes_rejections", "DagStore.run_assertions_off_same"]
 PLUGINS = {}
 
 
-def register(cls_values, gen, impl, oracle, shrink=None, nontrivial=None):
-    p = dict(gen=gen, impl=impl, oracle=oracle, shrink=shrink, nontrivial=nontrivial)
+def register(cls_values, gen, impl, oracle, shrink=None, nontrivial=None, compare=None):
+    p = dict(gen=gen, impl=impl, oracle=oracle, shrink=shrink, nontrivial=nontrivial, compare=compare)
     for c in cls_values:
         PLUGINS[c] = p
 
@@ -146,7 +147,18 @@ def nontrivial(case):
     return f(case) if f else True
 
 
+def compare(a, b, case=None):
+    f = _plugin(case)["compare"] if case is not None else None
+    return f(a, b, case) if f else a == b
+
+
+# BinaryNode and DAGNode plug-ins (props/_plug.py, on top of props/C11.py and props/C10.py)
+from props import _plug  # noqa: E402
+register(*_plug.c20_binary())
+register(*_plug.c20_dag())
+
+
 NOT_READY = False
-LEVEL_TEXT = "Proof (BaseNode/Node part; BinaryNode and DAGNode are plugged in as further classes). `assertions` is a parameter of every modelled setter. C20.assertions_off_same: an operation accepted with the checks on gives the identical store and outcome with the checks off; assertions_off_same_run: lifted to whole histories (trace and final store); off_only_removes_rejections; guards_pure: decided by the kernel on the guard skeleton that harness/tables.py re-extracts from /repo's source on every run - every `if ASSERTIONS:` block consists only of bare calls whose name contains 'check' (no other statement, no else), ASSERTIONS is read nowhere else in the package, the check functions store to nothing non-local and call no mutator on non-locals, and the guarded sites are exactly the six modelled setters. Tie: the same accepted histories are run in TWO interpreter processes (BIGTREE_CONF_ASSERTIONS unset / empty), outcome and store after every call are compared with each other and with the model at assertions=true/false, then a battery of readers (derived queries, all iterators, go_to, exports, searches) on the final objects of both processes must agree."
+LEVEL_TEXT = "Proof (BaseNode/Node, BinaryNode and DAGNode stores). `assertions` is a parameter of every modelled setter. C20.assertions_off_same: an operation accepted with the checks on gives the identical store and outcome with the checks off; assertions_off_same_run: lifted to whole histories (trace and final store); off_only_removes_rejections; guards_pure: decided by the kernel on the guard skeleton that harness/tables.py re-extracts from /repo's source on every run - every `if ASSERTIONS:` block consists only of bare calls whose name contains 'check' (no other statement, no else), ASSERTIONS is read nowhere else in the package, the check functions store to nothing non-local and call no mutator on non-locals, and the guarded sites are exactly the six modelled setters. Tie: the same accepted histories are run in TWO interpreter processes (BIGTREE_CONF_ASSERTIONS unset / empty), outcome and store after every call are compared with each other and with the model at assertions=true/false, then a battery of readers (derived queries, all iterators, go_to, exports, searches) on the final objects of both processes must agree."
 LEVEL_NOTE = "'Every library function gives the same result' rests on guards_pure (the flag is read only in pure guard blocks of the six setters) plus the two-process reader battery; the library functions themselves are not re-proved per flag value. With the checks off only guard-accepted arguments are in the domain of the claim."
 TECHNIQUE = 'Lean 4 proof on the parameterised setters + kernel-decided obligations over a table regenerated from source + two-process differential run'
